@@ -151,6 +151,9 @@ partial def monitorLoop (h : IO.FS.Stream) (out : IO.FS.Stream) : IO Unit := do
             out.putStrLn s!"V {n} genesisLaw {opl}: odd-address={genesisOdd (exportG s0)} code `{r}` model `{want.headD ""}`; only model {miss.take 3} only code {extra.take 3}"
             viol := viol + 1
           pre := some s1
+          -- a restart ends whatever was in flight: the cadence observer forgets the batch it was tracking
+          if g = .restart && r = "R ok" then
+            ghost := ghost.map (fun e => (e.1, { e.2 with lastStart := none, lastExpiry := none, clean := false, restarted := true }))
         | _, _, _ => out.putStrLn s!"P {n} genesis op before genesis"; viol := viol + 1
       else
       match parseOpLine opl with
